@@ -106,6 +106,10 @@ where
   fn close_internal(&self) {
     // Drop logic is now just the close logic.
     // The drop impl will call this.
+    // Only the last sender handle disconnects the receivers.
+    if self.dispatcher.sender_count.fetch_sub(1, Ordering::AcqRel) != 1 {
+      return;
+    }
     let pinned_map = self.dispatcher.subscriptions.pin();
     for (_topic, list_arc) in pinned_map.iter() {
       let subscribers_snapshot = list_arc.reader.enter();
@@ -135,6 +139,7 @@ where
   T: Send + Clone + 'static,
 {
   fn clone(&self) -> Self {
+    self.dispatcher.sender_count.fetch_add(1, Ordering::AcqRel);
     Self {
       dispatcher: self.dispatcher.clone(),
       closed: AtomicBool::new(false),
